@@ -256,6 +256,7 @@ CaseResult run_static(const RunCtx &ctx, TapeReader &t, unsigned size_hint) {
         if (nt_far) res.label("nt_far_query");
     }
     if (c07) res.nontrivial = idx.height() >= 3 && nt_c07;
+    if (mem) res.nontrivial = n <= 3 || meta.starts_lowest || meta.top_reached || meta.chunks > 1;
     if (!res.ok && ctx.want_desc) res.desc = describe();
     return res;
 }
